@@ -168,6 +168,9 @@ impl<R> ClTok<R> {
     pub uninterp spec fn now(&self) -> Option<BufferState<R>>;
     pub uninterp spec fn eventually(&self) -> Option<BufferState<R>>;
     pub uninterp spec fn locks(&self) -> nat;
+    /// number of `notify_one`/`notify_all` calls made on the Condvar half so far: a consumer parked in the wait
+    /// loop re-examines the cell only after such a call
+    pub uninterp spec fn wakes(&self) -> nat;
     pub open spec fn val(&self) -> Option<BufferState<R>> { self.eventually() }
     pub open spec fn wf(&self) -> bool { self.now() is None || self.now() == self.eventually() }
     /// Ghost step for the drivers only (no repository code can call it): the consumer's call STARTED before
@@ -185,6 +188,16 @@ impl<R> ClTok<R> {
 }
 impl<R> Closed<R> {
     pub uninterp spec fn id(&self) -> int;
+    /// `cvar.notify_one()` / `notify_all()`: wakes a consumer parked in the wait loop; touches nothing else
+    #[verifier::external_body]
+    pub fn notify(&self, Tracked(t): Tracked<&mut ClTok<R>>)
+        requires
+            old(t).id() == self.id(),
+        ensures
+            final(t).id() == old(t).id(), final(t).now() == old(t).now(), final(t).eventually() == old(t).eventually(),
+            final(t).locks() == old(t).locks(),
+            final(t).wakes() == old(t).wakes() + 1,
+    { unimplemented!() }
     /// lock.lock().unwrap(): exclusive access to what the cell holds NOW for the rest of the method; no
     /// waiting.  Whatever the method leaves in the cell is what it holds from then on, with one exception:
     /// a cell found empty and left empty still receives the producer's publication later.
@@ -198,6 +211,7 @@ impl<R> Closed<R> {
             final(t).eventually() == (if old(t).now() is None && *final(g) is None { old(t).eventually() } else { *final(g) }),
             final(t).id() == old(t).id(),
             final(t).locks() == old(t).locks() + 1,
+            final(t).wakes() == old(t).wakes(),
     { unimplemented!() }
     /// R13: lock + `while closed.is_none() { closed = cvar.wait(closed).unwrap(); }`.  The loop exits only
     /// once the producer has published, so it hands out the value the cell holds THEN (`eventually()`),
@@ -215,6 +229,7 @@ impl<R> Closed<R> {
             final(t).eventually() == *final(g),
             final(t).id() == old(t).id(),
             final(t).locks() == old(t).locks() + 1,
+            final(t).wakes() == old(t).wakes(),
     { unimplemented!() }
 }
 /// The Condvar half of the pair as seen by a consumer method in which the R13 idiom was NOT recognised (the method
@@ -456,11 +471,14 @@ fn drop(&mut self, Tracked(cl): Tracked<&mut ClTok<R>>)
         
         final(cl).locks() == old(cl).locks() + 1,
         
+        final(cl).wakes() >= old(cl).wakes() + 1,
+        
         final(self).buffer_state is NotStarted,
 {
         let closed = self.closed.lock(Tracked(cl));
         let buffer_state = mem_replace(&mut self.buffer_state, BufferState::NotStarted);
         *closed = Some(buffer_state);
+        self.closed.notify(Tracked(cl));
     }
 
 } // impl TempFileBufferWriter
